@@ -46,7 +46,9 @@ def mixed_program(rng, u, depth=0, allow_pos=True, size=None, macros=None, comme
                     body.append(pp.bt("id", "p%d" % rng.randrange(nf)))
                 elif q < 0.75 and comments:
                     body.append(pp.bt("cmt", "/* bc%d */" % rng.randint(0, 9)))
-                elif q < 0.85 and macros:
+                elif q < 0.80 and not (body and body[-1]["k"] == "str"):
+                    body.append(pp.bt("undef", rng.choice(["A", "B", "C"])) if rng.random() < 0.85 else pp.bt("undefall"))
+                elif q < 0.88 and macros:
                     m = rng.choice(sorted(macros))
                     if macros[m] == 0 and m != name:
                         body.append(pp.bt("use", m))
